@@ -1,22 +1,58 @@
-(** C05 — scope semantics and the shared-on-contextual rule (build-time half; the lift from graph nodes to service
-    names is in Proofs/DepGraphProofs.v). *)
-From GV Require Import Base.Str Base.Gerr Model.Compile Model.OutVal Proofs.GraphProofs.
+(** C05 — scope semantics and the shared-on-contextual rule (build-time half): exactness of the scope rule with respect to the
+    documented dependency relation [svc_dep] (arguments, fields, calls, !tagged carriers, decorators on carried tags). *)
+From GV Require Import Base.Str Base.Gerr Model.Compile Model.OutVal Proofs.GraphProofs Proofs.DepGraphProofs.
 
-(** the transitive dependencies the scope validator walks are exactly the nodes reachable by a non-empty path *)
-Theorem C05_transitive_deps_exact : forall g a b, wf_graph g -> (In b (reachable_from g a) <-> path g a b).
-Proof. exact reachable_from_iff. Qed.
+(** a scope diagnostic is printed exactly for the pairs (s, s'): s declared shared, s' declared contextual, s <> s', s depends transitively on s' *)
+Theorem C05_reject_iff :
+  forall (o : output) (m : str),
+         In m (collect (validate_scopes o)) <->
+         (exists (sa : oservice) (b : str),
+            In sa (o_services o) /\
+            os_scope sa = OScShared /\
+            os_name sa <> b /\
+            Relation_Operators.clos_trans str (svc_dep o) (os_name sa) b /\
+            is_contextual o b = true /\ m = scope_msg (os_name sa) b).
+Proof. exact (@validate_scopes_spec). Qed.
+Print Assumptions C05_reject_iff.
+
+(** no configuration is rejected for scope reasons unless such a pair exists *)
+Theorem C05_accept_iff :
+  forall o : output,
+         validate_scopes o = None <->
+         (forall (sa : oservice) (b : str),
+          In sa (o_services o) ->
+          os_scope sa = OScShared ->
+          os_name sa <> b ->
+          Relation_Operators.clos_trans str (svc_dep o) (os_name sa) b -> is_contextual o b = false).
+Proof. exact (@validate_scopes_none). Qed.
+Print Assumptions C05_accept_iff.
+
+(** the same, stated on declared services when names are unique *)
+Theorem C05_accept_iff_unique_names :
+  forall o : output,
+         NoDup (map os_name (o_services o)) ->
+         validate_scopes o = None <->
+         (forall sa sb : oservice,
+          In sa (o_services o) ->
+          In sb (o_services o) ->
+          os_scope sa = OScShared ->
+          os_scope sb = OScContextual ->
+          os_name sa <> os_name sb -> ~ Relation_Operators.clos_trans str (svc_dep o) (os_name sa) (os_name sb)).
+Proof. exact (@validate_scopes_none_uniq). Qed.
+Print Assumptions C05_accept_iff_unique_names.
+
+(** reachability between service nodes of the built graph = transitive closure of the documented dependency relation *)
+Theorem C05_graph_reach_is_documented_dependency :
+  forall (o : output) (a b : str),
+         spath (dep_calls o) (id_service a) (id_service b) <->
+         Relation_Operators.clos_trans str (svc_dep o) a b.
+Proof. exact (@service_reach). Qed.
+Print Assumptions C05_graph_reach_is_documented_dependency.
+
+(** the dependency list the validator walks: everything reachable, the service itself excluded *)
+Theorem C05_transitive_deps_exact :
+  forall (calls : list (str * str)) (id y : str),
+         In y (deps_of (build calls g0) id) <-> y <> id /\ spath calls id y.
+Proof. exact (@deps_of_spec). Qed.
 Print Assumptions C05_transitive_deps_exact.
 
-(** only services declared shared are ever reported, and only against services declared contextual *)
-Theorem C05_only_shared_on_contextual : forall o g sv e, In e (scope_errors_of o g sv) -> e <> None /\ os_scope sv = OScShared.
-Proof.
-  intros o g sv e H. unfold scope_errors_of in H. destruct (os_scope sv); try contradiction.
-  apply in_map_iff in H as (id & <- & _). split; [discriminate|reflexivity].
-Qed.
-Print Assumptions C05_only_shared_on_contextual.
-
-Theorem C05_reported_dependant_is_contextual : forall o g sv id,
-  In id (filter (fun id => is_service_id id && is_contextual o (resource_of id)) (deps_of g (id_service (os_name sv)))) ->
-  is_contextual o (resource_of id) = true /\ In id (deps_of g (id_service (os_name sv))).
-Proof. intros o g sv id H. apply filter_In in H as [Hin Hb]. apply andb_true_iff in Hb as [_ Hc]. auto. Qed.
-Print Assumptions C05_reported_dependant_is_contextual.
